@@ -58,7 +58,30 @@ def run_kernel(repo, R, qual, extra_env=None, if_handler=None):
         return f, None
     for sub in ex.all_extractors():
         R.note_function(sub.func.qualname)
+    cover_rule(R, f, ex)
     return f, ex
+
+
+def cover_rule(R, f, ex, tag=""):
+    """COVER: every table entry that reaches the result is computed by some recursion step (gbsa/cover.py)."""
+    from .. import cover
+    R.rule("COVER", "every entry of a recursion table that reaches the result has been computed: stores, loads and gathers replayed in program order "
+                    "on index regions for all small size parameters (a deleted or shortened recursion step leaves zeros behind)")
+    thorough = getattr(R, "tier", "quick") == "thorough"
+    gaps, info = cover.check(ex, bound=4 if thorough else 3, max_configs=600 if thorough else 200)
+    for g in gaps:
+        ev = g.event
+        cfg = dict(zip(info["parameters"], g.config))
+        if g.kind == "range":
+            msg = f"{g.msg}: the index falls outside the table for the sizes {cfg}"
+        else:
+            msg = (f"{g.msg}; it is read by `{ast.unparse(ev['node'])[:70]}` for the sizes {cfg}: a recursion step is missing or does not reach this "
+                   f"entry, so the zero of np.zeros (or an uninitialised value) enters the integrals")
+        R.fail("COVER", ev["func"].site, f"{g.table.name}: {ast.unparse(ev['node'])[:70]}", msg, where=ev["func"].where(ev["node"]),
+               expected="computed before it is used")
+    if not gaps:
+        R.ok("COVER", f.site, f"{tag}{info['events']} stores/loads/gathers on {info['tables']} table(s) replayed for {info['configs']} assignments of "
+                              f"{info['parameters']} in {info.get('values')}", detail=info.get("recursion_axes"))
 
 
 def sub_extractor(ex, qual_suffix):
